@@ -38,7 +38,7 @@ VARIABLES d, mon, bad, script, hist, elog
 vars == <<d, mon, bad, script, hist, elog>>
 
 NoC == [k |-> "none", id |-> 0, aid |-> 0, prep |-> FALSE, rid |-> 0, has |-> FALSE,
-        val |-> 0, child |-> 0, ho |-> {}, hr |-> {}, od |-> 0]
+        val |-> 0, child |-> 0, ho |-> {}, hr |-> {}, od |-> 0, code |-> ""]
 \* od: id of the closure that the Drop handler of this closure's captures defers
 \* (through a Deferrer, without Core access) when they are dropped
 Clo(k, id, aid, prep) == [NoC EXCEPT !.k = k, !.id = id, !.aid = aid, !.prep = prep]
@@ -79,7 +79,7 @@ Budget(s) == s.nextId <= MaxItems
 (* ---------------------------------------------------------------- *)
 (* termination, as actor.rs terminate + to_zombie                    *)
 (* ---------------------------------------------------------------- *)
-RECURSIVE DropClosures(_, _), DropOwner(_, _), DropRet(_, _), DropValue(_, _)
+RECURSIVE DropClosures(_, _), DropOwner(_, _), DropRet(_, _), DropValue(_, _), DropSlabOwner(_, _)
 
 \* strong_dec; on reaching zero defer terminate(Dropped)
 DropOwner(s, o) ==
@@ -115,7 +115,8 @@ DropClosures(s, cs) ==
   IF cs = << >> THEN s ELSE
   LET c == Head(cs)
       s1 == IF c.k \in {"item", "call"} THEN DropHandler(Emit(s, [e |-> "drop", item |-> c.id, ran |-> FALSE]), c) ELSE s
-      s2 == FoldSet(LAMBDA o, acc : DropOwner(acc, o), s1, c.ho)
+      s1b == IF c.k = "dkill" THEN DropSlabOwner(s1, c.aid) ELSE s1     \* the owner kill! had taken
+      s2 == FoldSet(LAMBDA o, acc : DropOwner(acc, o), s1b, c.ho)
       s3 == FoldSet(LAMBDA r, acc : DropRet(acc, r), s2, c.hr)
   IN DropClosures(s3, Tail(cs))
 
@@ -210,6 +211,7 @@ Effects(s, cx) ==
         THEN {[op |-> "ownclone", oid |-> o] : o \in TopOwners(s)} ELSE {})
   \cup (IF E("keepown") /\ cx.k = "meth"
         THEN {[op |-> "keepown", oid |-> o] : o \in {x \in TopOwners(s) : s.owners[x].aid > cx.aid}} ELSE {})
+  \cup (IF E("dkill") THEN {[op |-> "dkill", oid |-> o] : o \in TopOwners(s)} ELSE {})
   \cup (IF E("kill") /\ HasStakker(cx) THEN {[op |-> "kill", oid |-> o] : o \in TopOwners(s)} ELSE {})
   \cup (IF E("mkret") /\ s.nextRid <= MaxRets
         THEN {[op |-> "mkret", kind |-> "plain", aid |-> 0]}
@@ -340,6 +342,13 @@ ApplyEff(s, cx, f) ==
          Op(Emit([s EXCEPT !.owners[f.oid].loc = "state", !.actors[cx.aid].kept = Append(@, f.oid)],
                  [e |-> "keepown", oid |-> f.oid, aid |-> s.owners[f.oid].aid, by |-> cx.aid]),
             [op |-> "keepown", oid |-> f.oid])
+    [] f.op = "dkill" ->
+         \* kill!(owner, ..): owned() + a deferred closure that kills through that extra owner and then drops it
+         LET a == s.owners[f.oid].aid
+             code == "d" \o ToString(f.oid) \o ToString(Len(s.ops))
+             c == [Clo("dkill", 0, a, FALSE) EXCEPT !.code = code]
+             s1 == Emit([s EXCEPT !.actors[a].strong = @ + 1], [e |-> "dkill", aid |-> a, code |-> code])
+         IN Op(IF s.alive THEN [s1 EXCEPT !.deferQ = Append(@, c)] ELSE s1, [op |-> "dkill", oid |-> f.oid, code |-> code])
     [] f.op = "kill" ->
          LET a == s.owners[f.oid].aid
              code == "k" \o ToString(f.oid)
@@ -487,6 +496,8 @@ ExecClosure(s, c) ==
          ELSE { [s |-> DropClosures(s, <<c>>), id |-> 0, ops |-> << >>, ret |-> ""] }
     [] c.k = "term" ->
          { [s |-> DTerminate(s, c.aid, "dropped"), id |-> 0, ops |-> << >>, ret |-> ""] }
+    [] c.k = "dkill" ->
+         { [s |-> DropSlabOwner(DTerminate(s, c.aid, "killed:" \o c.code), c.aid), id |-> 0, ops |-> << >>, ret |-> ""] }
     [] c.k = "slabrm" ->
          \* parent.apply(|this| slab.remove(key)): now if Ready, held if Prep, nothing if Zombie
          LET par == s.actors[c.aid] IN
